@@ -8,7 +8,7 @@ PROP = "C17"
 PROPS_V = "theories/Props/C17.v"
 THEOREMS = [
     "C17_parse_print_expr", "C17_parse_print_expr_refuted", "C17_precedence", "C17_keywords_ci",
-    "C17_parse_print_query", "C17_fuel_enough", "C17_panic_refuted", "C17_fixed_never_panics", "C17_fixed_agrees",
+    "C17_parse_print_query", "C17_parse_print_command", "C17_fuel_enough", "C17_panic_refuted", "C17_fixed_never_panics", "C17_fixed_agrees",
     "C17_no_panic_outside_known", "C17_panic_classes", "C17_dispatch_refuted", "C17_dispatch_outside_known",
 ]
 RULE = ("command texts from seven generators: (rt) print of a random well-formed Query AST by the extracted Coq printer "
